@@ -239,7 +239,28 @@ func (s *Spec) elemKinds() string {
 func (s *Spec) ArrReps() []string {
 	reps := []string{"", "array"}
 	switch s.elemKinds() {
-	case "int", "str", "float":
+	case "int":
+		reps = append(reps, "typed")
+		// slices of the other integer widths that hold every element
+		for _, w := range typedWidths {
+			fits := true
+			for _, e := range s.E {
+				fits = fits && e.U == 0 && w.fits(e.I)
+			}
+			if fits && len(s.E) > 0 {
+				reps = append(reps, "typed:"+w.name)
+			}
+		}
+	case "float":
+		reps = append(reps, "typed")
+		exact := len(s.E) > 0
+		for _, e := range s.E {
+			exact = exact && float64(float32(e.F)) == e.F
+		}
+		if exact {
+			reps = append(reps, "typed:float32")
+		}
+	case "str":
 		reps = append(reps, "typed")
 	case "map":
 		ok := true
@@ -256,6 +277,21 @@ func (s *Spec) ArrReps() []string {
 		reps = append(reps, "range")
 	}
 	return reps
+}
+
+type typedWidth struct {
+	name string
+	t    reflect.Type
+	fits func(int64) bool
+}
+
+// (no []uint8: a byte slice is a string to Liquid)
+var typedWidths = []typedWidth{
+	{"int8", reflect.TypeOf(int8(0)), func(i int64) bool { return i >= -128 && i <= 127 }},
+	{"int32", reflect.TypeOf(int32(0)), func(i int64) bool { return i >= -1<<31 && i < 1<<31 }},
+	{"int64", reflect.TypeOf(int64(0)), func(i int64) bool { return true }},
+	{"uint16", reflect.TypeOf(uint16(0)), func(i int64) bool { return i >= 0 && i < 1<<16 }},
+	{"uint", reflect.TypeOf(uint(0)), func(i int64) bool { return i >= 0 }},
 }
 
 func (s *Spec) isInterval() bool {
@@ -282,6 +318,30 @@ func (s *Spec) realiseArr() any {
 	case "emptystrings":
 		if len(s.E) == 0 {
 			return []string{}
+		}
+	case "typed:float32":
+		if s.elemKinds() == "float" {
+			out := make([]float32, len(s.E), len(s.E)+s.Cap)
+			for i, e := range s.E {
+				out[i] = float32(e.F)
+			}
+			return out
+		}
+	case "typed:int8", "typed:int32", "typed:int64", "typed:uint16", "typed:uint":
+		for _, w := range typedWidths {
+			if "typed:"+w.name != s.R || s.elemKinds() != "int" {
+				continue
+			}
+			out := reflect.MakeSlice(reflect.SliceOf(w.t), len(s.E), len(s.E)+s.Cap)
+			for i, e := range s.E {
+				switch w.t.Kind() {
+				case reflect.Uint16, reflect.Uint:
+					out.Index(i).SetUint(uint64(e.I))
+				default:
+					out.Index(i).SetInt(e.I)
+				}
+			}
+			return out.Interface()
 		}
 	case "typed":
 		switch s.elemKinds() {
